@@ -140,6 +140,38 @@ CLAIMED = {
         "Trusted: Coq kernel + vm_compute; headline theorem axiom-free; binary32 model lemmas via Flocq "
         "(stdlib real axioms as in C11). score_fn float reductions observed, not modelled.",
         "DESIGN.md 7/C17"),
+    "C02": (
+        "Coq proof (closed forms / ordering facts of the documented update) + executable Gallina model "
+        "of one parameter's update over the translator-regenerated shape logic + per-step translation "
+        "validation through the public API",
+        "Theorems in Properties/C02.v: statistics closed form for every history (weight 1 when beta2=1), "
+        "arithmetic blend = switch, state independent of / update linear in a decoupled learning rate, "
+        "warm-up and skipped parameters ignore the preconditioners, decoupled weight decay stays "
+        "outside the momentum, exponent = 2k unless overridden. The executable model (C02.Model: "
+        "merge, partition, per-block per-axis Gram statistics, mode products with the stored "
+        "preconditioners, merge back, graft, weight decay, momenta, Nesterov, lr) uses C06.Ref for all "
+        "shape logic. Tie: for every (configuration, step, leaf) Coq recomputes statistics, update "
+        "and next state from the implementation's own previous state, and certifies every refreshed "
+        "preconditioner as inverse p-th root of the new statistics (C01 root_cert).",
+        "Trusted: Coq kernel + vm_compute; no axioms; translator for C06.Ref. The model itself is "
+        "hand-written and tied by sampled correspondence (110 configurations quick); float32 rounding "
+        "absorbed by tolerance 2^-17 scaled by the preconditioner chain's amplification factor; matrix "
+        "roots are oracles checked by certificate (slack is an assumption as in C01). Quantized / pmap "
+        "/ sharded plumbing is covered by C11/C13/C03, the sharded one-refresh lag by C04.",
+        "DESIGN.md 7/C02"),
+    "C05": (
+        "Coq proof (norm identities from a pointwise sqrt spec, closed forms of every graft step by "
+        "induction) + public-API correspondence in every preconditioner mode",
+        "Theorems in Properties/C05.v: from the start step the pre-momentum update is a non-negative "
+        "multiple of the preconditioned gradient with nrm u (nrm p + eps) = nrm s nrm p (zero when p "
+        "is zero); Tearfree: exact norm transplant; before the start step and for skipped parameters "
+        "the graft step itself (DS applies the multiplier to skipped params too: u = s*|s|/(|s|+1e-25), "
+        "stated so); closed forms of SGD / sign / AdaGrad / RMSProp / normalised variants for every "
+        "history. Tie: public API with beta1=0, weight decay 0, lr=1 in full / compressed +-r / FD / "
+        "int16-quantized-pmap modes and Tearfree Shampoo/Sketchy, all graft types.",
+        "Trusted: Coq kernel + vm_compute; no axioms. sqrt enters as a pointwise spec hypothesis (a "
+        "global one has no model over Q); AdaFactor is an optax oracle (norm/direction identity only).",
+        "DESIGN.md 7/C05"),
 }
 
 NOT_YET = {}
